@@ -1,5 +1,11 @@
 """C16 — span identifiers round-trip; diagnostics locate inside the source."""
+import os
+import re
+import shutil
+import subprocess
+import tempfile
 import vlib
+import gen_core as G
 
 BOUNDS = [0, 1, 2, 7, 2**25 - 2, 2**25 - 1, 2**25, 2**25 + 1, 2**26, 2**38 - 2, 2**38 - 1, 2**38, 2**40]
 
@@ -98,7 +104,7 @@ def run(rep):
     rep.assumptions = ["sum of context lengths < 2^63 (u64 arithmetic modelled in Nat)",
                        "interner holds < 2^63 spans",
                        "binary_search_by_key modelled by its documented contract"]
-    vlib.prelude(rep)
+    vlib.prelude(rep, cli=True)
     n = 400 if rep.tier == "quick" else 20000
     cases = []
     corpus = [
@@ -127,9 +133,180 @@ def run(rep):
         if bad:
             rep.violation("span:" + c["key"], bad, {"op": "span " + c["key"], "impl": a[:1000]})
     vlib.compare(rep, cases, io, mo, label="span script")
+    diagnostics(rep)
+
+
+HAND_FAILING = [
+    "@", "\u00e9", "[1,", "{a: 1", "local", "1 +", "\"abc", "/* unterminated", "|||\n  x\n", "1.", "1e", "0x1", "01",
+    "zz", "\n\n\tzz", "\r\n  zz\r\n", "local a = 1;\r\n\ta.b", "\"\u00e9\u00e9\" + zz", "\"\U0001F600\" [zz]", "{a: self.b}",
+    "{a: 1}.b", "[1][5]", "error \"boom\"", "assert false : \"m\"; 1", "local f(x) = f(x); f(1)", "local a = a; a",
+    "1 / 0", "1 << -1", "{a: 1} < {a: 2}", "std.length(1)", "std.parseJson(\"[1,\")", "\"%d\" % \"x\"", "function(x) x",
+    "{[1]: 2}", "{a: 1, a: 2}", "local a = 1, a = 2; a", "function(x, x) 1", "super.a", "$", "self", "import \"missing.libsonnet\"",
+    "(import \"lib.libsonnet\").x", "importstr \"missing.txt\"", "import |||\n  a\n|||", "import \"a\" + \"b\"",
+    "[x for x in 1]", "{[k]: 1 for k in [1]}", "local f(a, b) = a; f(1)", "local f(a) = a; f(1, 2)", "local f(a) = a; f(b=1)",
+    "local f(a) = a; f(a=1, a=2)", "local f(a) = a; f(a=1, 2)", "\t\t{a:\n\t\t\terror \"deep\"}", "1e999", "-1e999 * 10",
+]
+
+
+def mutate_text(rng, src):
+    b = bytearray(src.encode("utf-8"))
+    if not b:
+        return src
+    k = rng.random()
+    i = rng.randrange(len(b))
+    if k < 0.3:
+        del b[i]
+    elif k < 0.6:
+        b.insert(i, rng.choice(b"@#`'\"\\(){}[],;:\n\t "))
+    elif k < 0.8:
+        del b[i:]
+    else:
+        b[i] = rng.choice(b"@(){}\"'|/")
+    return b.decode("utf-8", "replace")
+
+
+def line_col(src_bytes, pos):
+    pre = src_bytes[:pos]
+    line = pre.count(b"\n") + 1
+    last = pre.rfind(b"\n")
+    prefix = pre[last + 1:]
+    return line, prefix
+
+
+def diagnostics(rep):
+    """Part 2: every error carries spans inside the file it names; the CLI report renders and names file:line:col."""
+    rng = rep.rng
+    quick = rep.tier == "quick"
+    gen = G.Gen(rng, max_depth=4)
+    from checks.c09 import walk, replace, get, FAULTS_ANY, FAULTS_NOT_IN_OBJ
+    srcs = list(HAND_FAILING)
+    for _ in range(150 if quick else 4000):
+        p = gen.program()
+        srcs.append(G.to_jsonnet(p, rng, 0.1, rng.random() < 0.5))
+        nodes = []
+        walk(p, False, [], nodes)
+        path, inobj = rng.choice(nodes)
+        kind, name, mk = rng.choice(FAULTS_ANY + ([] if inobj else FAULTS_NOT_IN_OBJ))
+        srcs.append(G.to_jsonnet(replace(p, list(path), mk(get(p, path))), rng, 0.0, rng.random() < 0.5))
+        srcs.append(mutate_text(rng, srcs[-2]))
+    lib = '{x: error "in library", y: 1}'
+    lines = ["diag %s max_stack=60 file:%s=%s" % (vlib.hx(s), vlib.hx("lib.libsonnet"), vlib.hx(lib)) for s in srcs]
+    outs = vlib.impl(lines)
+    failing = []
+    for s, a in zip(srcs, outs):
+        w = a.split(" ")
+        if a.startswith("panic") or a.startswith("crash"):
+            rep.violation("c16diag:" + s, "diagnostic path crashed: " + a[:160], {"src": s, "impl": a})
+            continue
+        if w[0] != "err":
+            continue
+        rep.bump("diag:" + w[1] + ":" + w[2])
+        spans = w[4:]
+        own = int(w[3])
+        rep.count("diag:" + s, len(spans) >= 1, sample={"src": s[:120], "diag": a[:160]} if len(spans) >= 2 else None)
+        for sp in spans:
+            c, st, en, ln, ismain = sp.split(":")
+            if c in ("X", "I"):
+                rep.violation("c16diag:" + s, "span does not decode to a registered context: " + sp, {"src": s, "impl": a})
+                break
+            st, en, ln = int(st), int(en), int(ln)
+            if not (st <= en <= ln):
+                rep.violation("c16diag:" + s, "span %d..%d outside its file of length %d (or start > end)" % (st, en, ln),
+                              {"src": s, "impl": a})
+                break
+        failing.append((s, w, spans[:own]))
+    # CLI rendering
+    tmp = tempfile.mkdtemp(prefix="verif_c16_", dir="/tmp")
+    try:
+        with open(os.path.join(tmp, "lib.libsonnet"), "w") as f:
+            f.write(lib)
+        rng.shuffle(failing)
+        sample = failing[: (120 if quick else 2500)]
+        for i, (s, w, spans) in enumerate(sample):
+            path = os.path.join(tmp, "p%d.jsonnet" % (i % 8))
+            with open(path, "wb") as f:
+                f.write(s.encode("utf-8"))
+            mt = rng.choice([None, None, 0, 1, 2, 3, 5, 8])
+            for color in ([False, True] if i % 4 == 0 else [False]):
+                env = dict(os.environ)
+                if color:
+                    env.pop("NO_COLOR", None)
+                else:
+                    env["NO_COLOR"] = "1"
+                cmd = [vlib.CLI_BIN, "--max-stack", "60"] + (["--max-trace", str(mt)] if mt is not None else []) + [path]
+                p = subprocess.run(cmd, stdout=subprocess.PIPE, stderr=subprocess.PIPE, env=env, timeout=60)
+                err = p.stderr.decode("utf-8", "replace")
+                plain = re.sub(r"\x1b\[[0-9;]*m", "", err)
+                rep.evaluations += 1
+                rep.bump("cli-render" + ("-color" if color else ""))
+                key = "c16cli:" + s
+                rp = {"src": s, "cmd": cmd[1:], "exit": p.returncode, "stderr": plain[:600]}
+                if p.returncode != 1:
+                    rep.violation(key, "failing program: exit status %s instead of 1" % p.returncode, rp)
+                    continue
+                if p.stdout:
+                    rep.violation(key, "failing program wrote to stdout", rp)
+                if "error" not in plain:
+                    rep.violation(key, "no error report on stderr", rp)
+                    continue
+                # std.trace output (with its own locations) may precede the report: look after the last error header
+                heads = [m.start() for m in re.finditer(r"^error", plain, re.M)]
+                report = plain[heads[-1]:] if heads else plain
+                locs = re.findall(r"--> (.*?):(\d+):(\d+)", report)
+                if spans and not locs:
+                    rep.violation(key, "report names no file:line:col although the error carries a span", rp)
+                    continue
+                src_b = s.encode("utf-8")
+                nlines = src_b.count(b"\n") + 1
+                for fn, ln, col in locs:
+                    if fn == path and not (1 <= int(ln) <= nlines and int(col) >= 1):
+                        rep.violation(key, "reported location %s:%s outside the file" % (ln, col), rp)
+                if spans and locs and locs[0][0] == path:
+                    # the reported location must be the start of one of the spans the error carries
+                    got_line, got_col = int(locs[0][1]), int(locs[0][2])
+                    cands = []
+                    for sp in spans:
+                        c, st, en, ln_, ismain = sp.split(":")
+                        if ismain == "1":
+                            line, prefix = line_col(src_b, int(st))
+                            plain_prefix = all(0x20 <= ch < 0x7F for ch in prefix)
+                            cands.append((line, len(prefix) + 1 if plain_prefix else None, len(prefix.decode("utf-8", "replace"))))
+                    if cands:
+                        ok = False
+                        for line, col, nch in cands:
+                            if got_line == line and (got_col == col if col is not None else 1 <= got_col <= 8 * nch + 1):
+                                ok = True
+                        if not ok:
+                            rep.violation(key, "reported location %d:%d is not the start of any span of the error %r"
+                                          % (got_line, got_col, [(l, c) for l, c, _ in cands][:4]), rp)
+        # traces longer than --max-trace, every crop size
+        deep = "local f(n) = if n == 0 then error \"bottom\" else 1 + f(n - 1); f(12)"
+        path = os.path.join(tmp, "deep.jsonnet")
+        open(path, "w").write(deep)
+        env = dict(os.environ)
+        env["NO_COLOR"] = "1"
+        for mt in range(0, 30):
+            p = subprocess.run([vlib.CLI_BIN, "--max-trace", str(mt), path], stdout=subprocess.PIPE, stderr=subprocess.PIPE, env=env, timeout=60)
+            err = p.stderr.decode("utf-8", "replace")
+            rep.evaluations += 1
+            rep.bump("cli-crop")
+            shown = err.count("note: while")
+            hidden = re.findall(r"\.\.\. (\d+) items hidden \.\.\.", err)
+            rp = {"src": deep, "cmd": ["--max-trace", str(mt)], "exit": p.returncode, "stderr": err[:400]}
+            if p.returncode != 1 or "bottom" not in err:
+                rep.violation("c16crop:%d" % mt, "cropped report failed (exit %s)" % p.returncode, rp)
+            elif hidden and shown != mt:
+                rep.violation("c16crop:%d" % mt, "--max-trace %d shows %d trace items" % (mt, shown), rp)
+    finally:
+        shutil.rmtree(tmp, ignore_errors=True)
 
 
 def replay(r):
+    if "src" in r["replay"]:
+        vlib.build_harness()
+        a = vlib.impl(["diag %s max_stack=60" % vlib.hx(r["replay"]["src"])])[0]
+        print("diag :", a)
+        return 1 if a.startswith("panic") else 0
     line = r["replay"].get("op") or ("span " + r["replay"]["case"]["key"])
     vlib.build_harness()
     a = vlib.impl([line])[0]
